@@ -20,40 +20,6 @@ from .util import HarnessError
 CHILD_TIMEOUT = float(os.environ.get("LABSIM_CHILD_TIMEOUT", "120"))
 
 
-_PAD_KEEP = []
-
-
-def _heap_pad(k):
-    """Perturb the child's small-object free lists in a way that depends only
-    on k.  Used when a violation depends on memory-address re-use (a cache keyed
-    by id() of a dead object): the replay file then names the heap layout under
-    which a fresh process reproduces it."""
-    if not k:
-        return
-
-    class _P(object):
-        pass
-
-    junk = []
-    for i in range(k):
-        junk.append(_P())
-        junk.append([i])
-        junk.append((i, k))
-        junk.append({"a": i})
-        junk.append(float(i) + 0.5)
-    del junk[::2]
-    _PAD_KEEP.append(junk)
-
-
-def _pad_of(arg):
-    if isinstance(arg, dict):
-        if "heap_pad" in arg:
-            return arg.get("heap_pad") or 0
-        if isinstance(arg.get("plan"), dict):
-            return arg["plan"].get("heap_pad") or 0
-    return 0
-
-
 def run_isolated(fn, arg, timeout=None):
     """Execute fn(arg) in a forked child; return its JSON-able result."""
     if timeout is None:
@@ -71,7 +37,6 @@ def run_isolated(fn, arg, timeout=None):
             except Exception:
                 pass
             try:
-                _heap_pad(_pad_of(arg))
                 res = {"ok": fn(arg)}
             except BaseException:
                 res = {"harness_error": traceback.format_exc()}
